@@ -113,6 +113,15 @@ func VX_C17_order() {
 	srt := f.Sort(Order{Column: "e"})
 	vx.Check(srt.index[0] == uint32(n), "null sorts first")
 	vx.Check(vx.Or(vx.And(srt.index[1] == 0, ks[0] <= ks[1]), vx.And(srt.index[1] == 1, ks[1] <= ks[0])), "Sort follows the declared order")
+	// null placement for every size of the value set (rank tables of the full cardinality)
+	nl := f.Sort(Order{Column: "e", NullLast: true})
+	vx.Check(nl.index[n] == uint32(n), "NullLast: null sorts last")
+	vx.Check(vx.Or(vx.And(nl.index[0] == 0, ks[0] <= ks[1]), vx.And(nl.index[0] == 1, ks[1] <= ks[0])), "NullLast: values follow the declared order")
+	rv := f.Sort(Order{Column: "e", Reverse: true})
+	vx.Check(rv.index[n] == uint32(n), "Reverse: null sorts last")
+	vx.Check(vx.Or(vx.And(rv.index[0] == 0, ks[0] >= ks[1]), vx.And(rv.index[0] == 1, ks[1] >= ks[0])), "Reverse: values follow the reversed declared order")
+	rn := f.Sort(Order{Column: "e", Reverse: true, NullLast: true})
+	vx.Check(rn.index[0] == uint32(n), "Reverse+NullLast: null sorts first")
 	// a sort that leaves the first and the last row in place (null last): Slice() and ItemAt agree
 	var frs []QFrame
 	if K <= 3 { // reading cells with a symbolic value index forks per declared value: small lists only
